@@ -10,6 +10,7 @@ package main
 //   // name: TrimCollinear64.closed-clauses
 //   // what: ...
 //   // bound: ...
+//   // sampled: names of sub-checks that sample their domain pseudo-randomly (not exhaustive)
 // The test prints  VERIF-BOUNDED <name> cases=<n>  and, per failing case (at most a few),
 // VERIF-BOUNDED-FAIL <name> <description of the input>.
 
@@ -33,7 +34,7 @@ type BoundedResult struct {
 	Ran        bool
 }
 
-var hdrRe = regexp.MustCompile(`(?m)^// (prop|tier|name|what|bound): (.*)$`)
+var hdrRe = regexp.MustCompile(`(?m)^// (prop|tier|name|what|bound|sampled): (.*)$`)
 
 func runBounded(w *World, prop, tier string, seed int, dir string) []*BoundedResult {
 	files, _ := filepath.Glob("/verif/bounded/*.go")
@@ -60,7 +61,7 @@ func runBounded(w *World, prop, tier string, seed int, dir string) []*BoundedRes
 		}
 		sel = append(sel, f)
 		for _, n := range strings.Fields(h["name"]) {
-			br := &BoundedResult{Name: "bounded:" + n, What: h["what"], Bound: h["bound"], Exhaustive: true}
+			br := &BoundedResult{Name: "bounded:" + n, What: h["what"], Bound: h["bound"], Exhaustive: !hasProp(strings.Fields(h["sampled"]), n)}
 			byName[n] = br
 			order = append(order, br)
 		}
